@@ -10,8 +10,9 @@
       iterations and three seeds.  The Verus proof rests on assumed contracts of std/world functions; a concrete input on
       which the real code disagrees with the statement oracle although every obligation is discharged means one of those
       assumptions (or the oracle) is wrong, and is reported as a VIOLATION with the witness;
-   c. C04 only: the equivalence of right-most-first expansion with csh's left-to-right expansion, exhaustively for all
-      brace patterns up to length 10 over a 5-letter alphabet (the part of C04 that is not proved).
+   c. C04 only: the real matcher and the formal definition of the expansion (dhas, the subject of theorem_expansion) against
+      the operational left-to-right csh expansion, exhaustively for all brace patterns up to length 10 over a 5-letter
+      alphabet (a validation of the specification; the theorem itself is proved for all patterns).
 3. replay of the recorded witnesses of known findings against the real code (done by bin/check).
 """
 import hashlib
@@ -186,12 +187,21 @@ def run(pid, cfg, repo, seed, root):
                 n = os.environ.get("VERIF_C04_MAXLEN", "10")
                 t = time.time()
                 p = subprocess.run([exe, "bounded", "C04", n], stdout=subprocess.PIPE, stderr=subprocess.PIPE, universal_newlines=True, timeout=3000)
-                dif["c04_expansion_equivalence"] = {"label": "bounded exhaustive (all brace patterns up to length %s)" % n,
-                                                    "result": p.stdout.strip().split("\n")[-1][:200], "wall_s": round(time.time() - t, 1)}
+                dif["c04_expansion_cross_check"] = {
+                    "label": "bounded exhaustive (all brace patterns up to length %s over a 5-letter alphabet): (a) the real Pattern against the "
+                             "operational left-to-right csh oracle; (b) the formal definition of the expansion used by theorem_expansion (dhas, "
+                             "transcribed as oracle::expand_d) against that operational oracle - a validation of the specification, the theorem "
+                             "itself is proved for all patterns" % n,
+                    "result": p.stdout.strip().split("\n")[-1][:300], "wall_s": round(time.time() - t, 1)}
                 if p.returncode == 1:
-                    lines.append("VIOLATION property=C04 replay=%s obligation=pattern::(bounded;csh-expansion-equivalence) no-failing-input-found" %
+                    lines.append("VIOLATION property=C04 replay=%s obligation=pattern::(all-discharged;assumption-check;csh-oracle) no-failing-input-found" %
                                  os.path.join(root, "evidence", "C04.json"))
                     code = 1
+                elif p.returncode != 0:
+                    # the two definitions of the expansion disagree: the specification is in doubt, nothing is decided about the code
+                    lines.append("UNDECIDED property=C04 the formal expansion (dhas) and the operational csh oracle disagree: %s" %
+                                 p.stdout.strip().split("\n")[-1][:200])
+                    code = 2
         cov["differential_validation"] = dif
     cov["thorough_wall_s"] = round(time.time() - t0, 1)
     return cov, code, lines
